@@ -14,7 +14,8 @@ impl Filterer for Scripted {
 }
 
 // case: <id> <throttle_ms> <handler_ms> <arrivals: off:id:prio(l|n|h|u):kind(t|e):verdict(p|r|e),…>
-async fn run_case(throttle: u64, handler_ms: u64, arrivals: Vec<(u64, String, Priority, bool, char)>, changes: Vec<(u64, u64)>) -> String {
+/// `ecap` / `edelay`: capacity of the runtime-error channel and time the error consumer spends per error (a slow `on_error`)
+async fn run_case(throttle: u64, handler_ms: u64, arrivals: Vec<(u64, String, Priority, bool, char)>, changes: Vec<(u64, u64)>, ecap: usize, edelay: u64) -> String {
     let config = Arc::new(Config::default());
     config.throttle(Duration::from_millis(throttle));
     let seen_by_filter = Arc::new(Mutex::new(vec![]));
@@ -27,7 +28,14 @@ async fn run_case(throttle: u64, handler_ms: u64, arrivals: Vec<(u64, String, Pr
         if handler_ms > 0 { std::thread::sleep(Duration::from_millis(handler_ms)); }
         action } });
     let (ev_s, ev_r) = async_priority_channel::bounded(64);
-    let (er_s, mut er_r) = tokio::sync::mpsc::channel(64);
+    let (er_s, er_r) = tokio::sync::mpsc::channel::<RuntimeError>(ecap);
+    let errcount = Arc::new(std::sync::atomic::AtomicUsize::new(0));
+    // edelay == 0: errors stay in the channel until the end; otherwise a slow error handler drains them one by one
+    let mut er_keep = None;
+    if edelay == 0 { er_keep = Some(er_r); } else {
+        let errcount = errcount.clone(); let mut er_r = er_r;
+        tokio::spawn(async move { while let Some(_e) = er_r.recv().await { errcount.fetch_add(1, std::sync::atomic::Ordering::SeqCst); tokio::time::sleep(Duration::from_millis(edelay)).await; } });
+    }
     let w = tokio::spawn(watchexec::action::worker(config.clone(), er_s, ev_r));
     // run-time throttle changes (`off:T:ms` items), made from another task like a handler or a client would
     let t0_tokio = tokio::time::Instant::from_std(t0);
@@ -41,9 +49,11 @@ async fn run_case(throttle: u64, handler_ms: u64, arrivals: Vec<(u64, String, Pr
         sent.push(format!("{id}@{before}"));
     }
     let maxthr = changer.await.map(|_| ()).ok().map(|_| config.throttle.get().as_millis() as u64).unwrap_or(throttle).max(throttle);
-    tokio::time::sleep(Duration::from_millis(maxthr + 150 + handler_ms * 2)).await;
+    let nerr = arrivals.iter().filter(|a| a.4 == 'e').count() as u64;
+    tokio::time::sleep(Duration::from_millis(maxthr + 150 + handler_ms * 2 + edelay * (nerr + 1))).await;
     w.abort();
-    let mut errs = 0; while er_r.try_recv().is_ok() { errs += 1; }
+    let mut errs = errcount.load(std::sync::atomic::Ordering::SeqCst);
+    if let Some(mut r) = er_keep { while r.try_recv().is_ok() { errs += 1; } }
     let b = batches.lock().unwrap();
     format!("sent={} batches={} errs={} filtered={}", sent.join(","), b.iter().map(|(t, ids)| format!("{}@{}", ids.join("+"), t)).collect::<Vec<_>>().join(","), errs, seen_by_filter.lock().unwrap().join("+"))
 }
@@ -60,9 +70,12 @@ fn main() {
                 let changes: Vec<(u64, u64)> = f[3].split(',').filter_map(|a| { let x: Vec<&str> = a.split(':').collect(); if x[1] == "T" { Some((x[0].parse().unwrap(), x[2].parse().unwrap())) } else { None } }).collect();
                 let arr: Vec<(u64, String, Priority, bool, char)> = f[3].split(',').filter(|a| a.split(':').nth(1) != Some("T")).map(|a| { let x: Vec<&str> = a.split(':').collect();
                     (x[0].parse().unwrap(), x[1].to_string(), match x[2] { "l" => Priority::Low, "h" => Priority::High, "u" => Priority::Urgent, _ => Priority::Normal }, x[3] == "e", x[4].chars().next().unwrap()) }).collect();
-                let (th, hm) = (f[1].parse().unwrap(), f[2].parse().unwrap());
+                // handler field: `<ms>` or `<ms>e<error channel capacity>x<ms per error>`
+                let (hms, ecfg) = f[2].split_once('e').map(|(a, b)| (a.to_string(), Some(b.to_string()))).unwrap_or((f[2].clone(), None));
+                let (ecap, edelay): (usize, u64) = ecfg.map(|e| { let (c, d) = e.split_once('x').unwrap(); (c.parse().unwrap(), d.parse().unwrap()) }).unwrap_or((64, 0));
+                let (th, hm) = (f[1].parse().unwrap(), hms.parse().unwrap());
                 let id = f[0].clone();
-                cur.push(tokio::spawn(async move { format!("{} {}", id, run_case(th, hm, arr, changes).await) }));
+                cur.push(tokio::spawn(async move { format!("{} {}", id, run_case(th, hm, arr, changes, ecap, edelay).await) }));
             }
             for h in cur { hs.push(h.await.unwrap()); }
         }
